@@ -72,7 +72,7 @@ class Lognormal(Distribution):
             dev = np.log(val) - model.forward(*args, **kwargs)
             return  model.gradient(self._normal.prec@dev, *args, **kwargs) # Jac(x).T@(self._normal.prec@dev)
         else:
-            warnings.warn('Gradient not implemented for {}'.format(type(self._normal.mean)))
+            raise NotImplementedError('Gradient not implemented for {}'.format(type(self._normal.mean)))
 
     def _sample(self, N=1, rng=None):
         return np.exp(self._normal._sample(N,rng))
